@@ -976,3 +976,34 @@ def mon_namespace(ops, lines):
                     return "C10-list: ListSubscriptions(%r) at op %d = %r, live subscriptions are %r" % (
                         unhx(ot[1]), i, [unhx(x) for x in got], [unhx(x) for x in want])
     return None
+
+
+def mon_cs(ops, lines):
+    """C06 / C12 / C15 on the answers of the held-handler cases (gen.cs_cases): the case ends with len(live)+1 rounds
+    of (runtime runs; every live consumer polled once) and STATS.  After them: while the subscription exists and
+    STATS shows a non-empty backlog no consumer may still be pending (C06); after a deletion no consumer may be
+    pending (C12); no blocking Pull answers with no messages (the cases stay below its 300 s limit) (C15)."""
+    deleted = False
+    last = {}
+    for i, (o, r) in enumerate(zip(ops, lines)):
+        ot, rt = o.split(" "), r.split(" ")
+        if r.startswith("!"):
+            return "C07-noanswer: op %d (%s) got %s" % (i, ot[0], r[:60])
+        if ot[0] == "DS" and rt[1:2] == ["0"]:
+            deleted = True
+        if ot[0] == "XQ":
+            last[ot[1]] = rt[1] if len(rt) > 1 else "?"
+            if rt[1:4] == ["done", "0", "0"]:
+                return "C15-empty-blocking-pull: handler %s answered with no messages at op %d, before its wait limit" % (ot[1], i)
+        if ot[0] == "XD":
+            last.pop(ot[1], None)
+    if len(lines) < len(ops):
+        return None
+    pending = sorted(k for k, v in last.items() if v == "pending")
+    fin = lines[-1].split(" ")
+    if deleted and pending:
+        return "C12-not-released: after the deletion handler(s) %s are still pending at the end of the case" % ",".join(pending)
+    if not deleted and fin[:2] == ["STATS", "0"] and int(fin[3]) > 0 and pending:
+        return ("C06-lost-wakeup: backlog is %s at the end of the case, after every consumer had its turns, and handler(s) %s "
+                "are still waiting" % (fin[3], ",".join(pending)))
+    return None
